@@ -457,13 +457,13 @@ C04_Monotonic ==
         LET c1 == st[n].ns[x]  c2 == st'[n].ns[x] IN
         /\ LexGe(c2, c1)
         /\ \A k \in (DOMAIN c1.kv) \cap (DOMAIN c2.kv) :
-             c2.kv[k].ver >= c1.kv[k].ver \/ c2.gc > c1.gc ]_vars
+             c2.kv[k].ver >= c1.kv[k].ver \/ c2.gc > c1.gc ]_<<vars, hist>>
 LastAct == IF hist' # hist /\ Len(hist') > 0 THEN hist'[Len(hist')] ELSE [a |-> "none", n |-> "", k |-> ""]
 C04_FreshVersion ==
   [][ Resetting \/ (LastAct.a \in {"Set", "SetTtl", "Delete", "DeleteTtl"} =>
         LET n == LastAct.n  c1 == st[n].ns[n]  c2 == st'[n].ns[n] IN
         \/ c2 = c1
-        \/ (c2.max = c1.max + 1 /\ c2.kv[LastAct.k].ver = c2.max /\ c2.gc = c1.gc)) ]_vars
+        \/ (c2.max = c1.max + 1 /\ c2.kv[LastAct.k].ver = c2.max /\ c2.gc = c1.gc)) ]_<<vars, hist>>
 C04_NoPanic == ~panic
 
 \* C05 -- single writer
@@ -474,7 +474,7 @@ C05_OwnUntouched ==
              \/ LastAct.n # n) => (c2.kv = c1.kv /\ c2.max = c1.max /\ c2.gc = c1.gc)
         /\ (LastAct.a = "Gc" /\ LastAct.n = n) => (c2.max = c1.max /\ c2.gc >= c1.gc)
         /\ c2.hb - c1.hb \in {0, 1}
-        /\ (c2.hb # c1.hb) => (LastAct.a \in {"Process", "Heartbeat"} /\ LastAct.n = n) ]_vars
+        /\ (c2.hb # c1.hb) => (LastAct.a \in {"Process", "Heartbeat"} /\ LastAct.n = n) ]_<<vars, hist>>
 C05_OwnerAhead ==
   \A p \in Copies : LET c == st[p[1]].ns[p[2]]  o == Own(p[2]) IN
      c.max <= o.max /\ (c.gc <= o.gc \/ c.gc <= o.max)
@@ -486,7 +486,7 @@ C20_Callback ==
         IF LastAct.a = "Process" /\ LastAct.n = n
         THEN LET wasReset == \E x \in DOMAIN st'[n].ns : st'[n].ns[x].gc > GcBefore(n, x)
              IN st'[n].cb = st[n].cb + (IF wasReset THEN 1 ELSE 0)
-        ELSE st'[n].cb = st[n].cb ]_vars
+        ELSE st'[n].cb = st[n].cb ]_<<vars, hist>>
 
 \* well-formedness of copies (justifies the enumeration domains of Agreement.tla)
 WellFormed(c) ==
@@ -527,18 +527,18 @@ C07_Structure ==
                   /\ e.k \in DOMAIN c.kv
                   /\ c.kv[e.k].ver = e.ver /\ c.kv[e.k].val = e.v /\ c.kv[e.k].st = e.st
                   /\ i > 1 => nd.kvs[i - 1].ver < e.ver
-             /\ nd.kvs # <<>> =>
-                  /\ nd.max = nd.kvs[Len(nd.kvs)].ver
-                  /\ {c.kv[k].ver : k \in {k \in DOMAIN c.kv : c.kv[k].ver > nd.from /\ c.kv[k].ver <= nd.max}}
-                       = {nd.kvs[i].ver : i \in 1..Len(nd.kvs)}
-             /\ nd.kvs = <<>> => nd.max \in {0, c.max}) ]_vars
+             /\ nd.kvs # <<>> => nd.max = nd.kvs[Len(nd.kvs)].ver
+             /\ nd.kvs = <<>> => nd.max \in {0, c.max}
+             \* exactly the sender's entries in (from, max]: no gap, nothing announced but not carried
+             /\ {c.kv[k].ver : k \in {k \in DOMAIN c.kv : c.kv[k].ver > nd.from /\ c.kv[k].ver <= nd.max}}
+                  = {nd.kvs[i].ver : i \in 1..Len(nd.kvs)}) ]_<<vars, hist>>
 
 \* C12 -- quarantine, removal, no revival by stale gossip (action properties)
 EvalStep(n) == LastAct.a = "Liveness" /\ LastAct.n = n
 C12_Partition ==
   [][ Resetting \/ \A n \in Node : EvalStep(n) =>
         \A x \in (DOMAIN st'[n].ns) \ {n} :
-           (x \in st'[n].live) # (x \in DOMAIN st'[n].dead) ]_vars
+           (x \in st'[n].live) # (x \in DOMAIN st'[n].dead) ]_<<vars, hist>>
 \* nothing the node sends mentions a member that has been dead for more than half the grace period
 Mentions(m) == (IF "digest" \in DOMAIN m THEN DOMAIN m.digest ELSE {})
                \cup (IF "delta" \in DOMAIN m THEN DOMAIN m.delta ELSE {})
@@ -546,13 +546,13 @@ C12_Quarantine ==
   [][ Resetting \/ ("out" \in DOMAIN LastAct =>
         LET n == LastAct.n IN
         \A x \in DOMAIN st'[n].dead :
-           clock' > st'[n].dead[x] + Half => x \notin Mentions(LastAct.out)) ]_vars
+           clock' > st'[n].dead[x] + Half => x \notin Mentions(LastAct.out)) ]_<<vars, hist>>
 \* an evaluation leaves no member that has been dead for the full grace period
 C12_Removal ==
   [][ Resetting \/ \A n \in Node : EvalStep(n) =>
         /\ \A x \in DOMAIN st'[n].dead : clock' < st'[n].dead[x] + DeadGrace
         /\ \A x \in DOMAIN st[n].dead :
-             (clock >= st[n].dead[x] + DeadGrace /\ x \notin st'[n].live) => x \notin DOMAIN st'[n].ns ]_vars
+             (clock >= st[n].dead[x] + DeadGrace /\ x \notin st'[n].live) => x \notin DOMAIN st'[n].ns ]_<<vars, hist>>
 \* a removed member re-appears only through a digest heartbeat strictly above the remembered one,
 \* never through catch-up, and is not live when it re-appears
 C12_NoRevival ==
@@ -562,7 +562,7 @@ C12_NoRevival ==
              /\ LastAct.a = "Process" /\ LastAct.n = n
              /\ "digest" \in DOMAIN LastAct.msg
              /\ x \in DOMAIN LastAct.msg.digest
-             /\ LastAct.msg.digest[x].hb > st[n].gcd[x] ]_vars
+             /\ LastAct.msg.digest[x].hb > st[n].gcd[x] ]_<<vars, hist>>
 
 \* C13 -- the watch channel after an evaluation
 CurrentOf(s, n) == [x \in (s.live \cup {n}) \cap DOMAIN s.ns |-> s.ns[x].max]
@@ -572,13 +572,13 @@ C13_Publish ==
   [][ Resetting \/ \A n \in Node : EvalStep(n) =>
         IF CurrentOf(st'[n], n) # st[n].prev
         THEN st'[n].wseq = st[n].wseq + 1 /\ st'[n].watch = ExactWatch(st'[n], n)
-        ELSE st'[n].wseq = st[n].wseq /\ st'[n].watch = st[n].watch ]_vars
+        ELSE st'[n].wseq = st[n].wseq /\ st'[n].watch = st[n].watch ]_<<vars, hist>>
 \* (a) exactness after every evaluation (scope: C12's step relation + plain writes, no tombstone GC)
 C13_Exact ==
-  [][ Resetting \/ \A n \in Node : EvalStep(n) => st'[n].watch = ExactWatch(st'[n], n) ]_vars
+  [][ Resetting \/ \A n \in Node : EvalStep(n) => st'[n].watch = ExactWatch(st'[n], n) ]_<<vars, hist>>
 \* the channel never changes outside an evaluation
 C13_OnlyEval ==
-  [][ Resetting \/ \A n \in Node : ~EvalStep(n) => (st'[n].watch = st[n].watch /\ st'[n].wseq = st[n].wseq) ]_vars
+  [][ Resetting \/ \A n \in Node : ~EvalStep(n) => (st'[n].watch = st[n].watch /\ st'[n].wseq = st[n].wseq) ]_<<vars, hist>>
 
 \* C18 -- external catch-up
 C18_Catchup ==
@@ -597,10 +597,10 @@ C18_Catchup ==
                         IF k \in DOMAIN c1.kv /\ c1.kv[k].ver >= sup[k].ver
                         THEN c2.kv[k] = c1.kv[k]
                         ELSE c2.kv[k].val = sup[k].val /\ c2.kv[k].ver = sup[k].ver
-                             /\ c2.kv[k].st = sup[k].st) ]_vars
+                             /\ c2.kv[k].st = sup[k].st) ]_<<vars, hist>>
 
 C18_NoPanic ==
-  [][ Resetting \/ (LastAct.a = "Catchup" => ("panic" \notin DOMAIN LastAct /\ panic' = panic)) ]_vars
+  [][ Resetting \/ (LastAct.a = "Catchup" => ("panic" \notin DOMAIN LastAct /\ panic' = panic)) ]_<<vars, hist>>
 
 \* C16 -- cluster isolation
 C16_Isolation ==
@@ -612,7 +612,7 @@ C16_Reject ==
   [][ Resetting \/ ((LastAct.a = "Process" /\ LastAct.msg.t = "Syn" /\ LastAct.msg.cluster # Cluster[LastAct.n]) =>
         LET n == LastAct.n IN
         /\ LastAct.out.t = "Bad"
-        /\ st'[n] = BumpHb(st[n], n)) ]_vars
+        /\ st'[n] = BumpHb(st[n], n)) ]_<<vars, hist>>
 
 -------------------------------------------------------------------------------
 \* TLC plumbing: behaviour export, one line per generated transition
